@@ -25,6 +25,8 @@ struct RealOut {
     segs: Vec<Vec<String>>,
     pairs: BTreeMap<String, Vec<String>>,
     path_and_query: String,
+    /// where the typed decoders see a query value differently from the raw sequence decoder
+    decoders: Vec<String>,
 }
 
 /// query keys with reserved characters: `#[conjure_client]` percent-encodes the key at compile time
@@ -44,6 +46,13 @@ trait MacroKeys {
         #[query(name = "k%41")] d: &str,
         #[query(name = "\u{e9}/?#")] e: &str,
     ) -> Result<(), conjure_error::Error>;
+}
+
+/// sequences through the macro's `DisplaySeqEncoder`: one path segment / one query pair per element, empty ones too
+#[conjure_http::conjure_client]
+trait MacroSeq {
+    #[endpoint(method = GET, path = "/s/{p}/x")]
+    fn seq(&self, #[path(encoder = conjure_http::client::DisplaySeqEncoder)] p: &[String], #[query(name = "tag", encoder = conjure_http::client::DisplaySeqEncoder)] tags: &[String], #[query(name = "one")] one: &str) -> Result<(), conjure_error::Error>;
 }
 
 #[derive(Clone, Default)]
@@ -91,6 +100,16 @@ fn run_real(pushes: &[Push], variant: u8) -> Result<RealOut, String> {
             let vals: Vec<&str> = pushes.iter().filter_map(|p| if let Push::Query(_, v) = p { Some(v.as_str()) } else { None }).collect();
             let p = pushes.iter().find_map(|p| if let Push::Path(v) = p { Some(v.as_str()) } else { None }).unwrap_or("");
             c.weird(p, vals[0], vals[1], vals[2], vals[3], vals[4]).expect("macro client call");
+            let u = cap.0.lock().unwrap().clone();
+            u
+        } else if variant == 10 {
+            use conjure_http::client::Service;
+            let cap = UriCapture::default();
+            let c = MacroSeqClient::new(cap.clone());
+            let ps: Vec<String> = pushes.iter().filter_map(|p| if let Push::Path(v) = p { Some(v.clone()) } else { None }).collect();
+            let tags: Vec<String> = pushes.iter().filter_map(|p| if let Push::Query(k, v) = p { if k == "tag" { Some(v.clone()) } else { None } } else { None }).collect();
+            let one = pushes.iter().find_map(|p| if let Push::Query(k, v) = p { if k == "one" { Some(v.clone()) } else { None } } else { None }).unwrap_or_default();
+            c.seq(&ps, &tags, &one).expect("macro client call");
             let u = cap.0.lock().unwrap().clone();
             u
         } else {
@@ -152,6 +171,25 @@ fn run_real(pushes: &[Push], variant: u8) -> Result<RealOut, String> {
             let vals: Vec<String> = query_param::<Vec<String>, FromStrSeqDecoder<String>>(&rt, &qp, &k, &k).map_err(|e| format!("{:?}", e)).unwrap();
             pairs.insert(k, vals);
         }
+        // the same values through the decoders generated endpoints (`FromPlain*`) and macro endpoints (`FromStr*`) use
+        let mut decoders: Vec<String> = vec![];
+        for (k, vs) in &pairs {
+            use conjure_http::server::conjure::{FromPlainDecoder, FromPlainOptionDecoder, FromPlainSeqDecoder};
+            use conjure_http::server::{FromStrDecoder, FromStrOptionDecoder};
+            let seq = query_param::<Vec<String>, FromPlainSeqDecoder<String>>(&rt, &qp, k, k).map_err(|e| e.cause().to_string());
+            if seq.as_ref().ok() != Some(vs) {
+                decoders.push(format!("FromPlainSeqDecoder on `{}`: {:?}, FromStrSeqDecoder: {:?}", k, seq, vs));
+            }
+            if vs.len() == 1 {
+                let a = query_param::<String, FromPlainDecoder>(&rt, &qp, k, k).map_err(|e| e.cause().to_string());
+                let b = query_param::<Option<String>, FromPlainOptionDecoder>(&rt, &qp, k, k).map_err(|e| e.cause().to_string());
+                let c = query_param::<String, FromStrDecoder>(&rt, &qp, k, k).map_err(|e| e.cause().to_string());
+                let d = query_param::<Option<String>, FromStrOptionDecoder>(&rt, &qp, k, k).map_err(|e| e.cause().to_string());
+                if a.as_ref().ok() != Some(&vs[0]) || c.as_ref().ok() != Some(&vs[0]) || b.as_ref().ok() != Some(&Some(vs[0].clone())) || d.as_ref().ok() != Some(&Some(vs[0].clone())) {
+                    decoders.push(format!("the single value {:?} of `{}`: FromPlainDecoder {:?}, FromPlainOptionDecoder {:?}, FromStrDecoder {:?}, FromStrOptionDecoder {:?}", vs[0], k, a, b, c, d));
+                }
+            }
+        }
         let mut pair_txt: Vec<(Vec<u8>, String)> = pairs
             .iter()
             .map(|(k, vs)| (k.as_bytes().to_vec(), format!("{}={}", hex(k.as_bytes()), vs.iter().map(|v| hex(v.as_bytes())).collect::<Vec<_>>().join(","))))
@@ -164,7 +202,7 @@ fn run_real(pushes: &[Push], variant: u8) -> Result<RealOut, String> {
             seg_txt.join("/"),
             pair_txt.into_iter().map(|p| p.1).collect::<Vec<_>>().join("&")
         );
-        RealOut { line, segs, pairs, path_and_query: uri.path_and_query().map(|p| p.as_str().to_string()).unwrap_or_default() }
+        RealOut { line, segs, pairs, decoders, path_and_query: uri.path_and_query().map(|p| p.as_str().to_string()).unwrap_or_default() }
     })
 }
 
@@ -225,6 +263,10 @@ fn one(cs: &mut Cases, class: &str, pushes: &[Push], variant: u8, nontrivial: bo
                 cs.fail_last("pairs", format!("query decoded to {:?}, sent {:?} ({})", out.pairs, exp_pairs, out.path_and_query));
                 return;
             }
+            if let Some(d) = out.decoders.first() {
+                cs.fail_last("decoders", format!("{} ({})", d, out.path_and_query));
+                return;
+            }
             if out.path_and_query.contains('#') {
                 cs.fail_last("fragment", format!("'#' in request target {}", out.path_and_query));
             }
@@ -277,6 +319,20 @@ pub fn cases(seed: u64, tier: Tier) -> Cases {
         let v: String = [*a, 'x', *a].iter().collect();
         let w = alpha[(i * 7 + 3) % alpha.len()].to_string();
         one(&mut cs, "macro-client:/m/{p}/x?5 keys", &macro_pushes(&v, [&v, &w, "", "plain", &v]), 9, true);
+    }
+    // a `#[conjure_client]` method whose path and query arguments are sequences (`DisplaySeqEncoder`): one segment /
+    // one pair per element, empty elements included
+    for (i, a) in alpha.iter().enumerate() {
+        let v: String = [*a, 'y'].iter().collect();
+        let lists: [Vec<String>; 4] = [vec![v.clone()], vec![v.clone(), String::new(), "z".into()], vec![String::new(), v.clone()], vec!["a".into(), String::new()]];
+        let ps = &lists[i % 4];
+        let tags = &lists[(i + 1) % 4];
+        let mut pushes = vec![Push::Lit("/s".to_string())];
+        pushes.extend(ps.iter().map(|p| Push::Path(p.clone())));
+        pushes.push(Push::Lit("/x".to_string()));
+        pushes.extend(tags.iter().map(|t| Push::Query("tag".to_string(), t.clone())));
+        pushes.push(Push::Query("one".to_string(), if i % 3 == 0 { String::new() } else { v.clone() }));
+        one(&mut cs, "macro-client:/s/{p..}/x?tag..&one", &pushes, 10, true);
     }
     // empty values
     for (name, t) in templates("", "") {
